@@ -142,6 +142,7 @@ func (mr *modelReference) GetReference(genSlice []int, element string) io.H5RefF
 func (mr *modelReference) GetGeneration(i int) (*modelGeneration, error) {
 	if mr.Generations[i] == nil {
 		verbosePrintf("Initialising Generation %d for %s\n", i, mr.ModelName)
+		verifPoint("generation-init", i)
 		gen := modelGeneration{}
 		modelInstance, err := mr.makeModel()
 		if err != nil {
